@@ -409,11 +409,37 @@ func (s *Sched) Parked() int {
 	return len(s.parked)
 }
 
-// AllStacks returns a compact dump of every goroutine's stack.
+// AllStacks returns the stacks of the goroutines of the caller's synctest bubble (all
+// goroutines when not in a bubble). Goroutines leaked by earlier, failed runs belong to
+// other bubbles and are left out.
 func AllStacks() string {
-	buf := make([]byte, 1<<20)
+	buf := make([]byte, 4<<20)
 	n := runtime.Stack(buf, true)
-	return string(buf[:n])
+	all := strings.Split(string(buf[:n]), "\n\n")
+	if len(all) == 0 {
+		return ""
+	}
+	bubble := ""
+	if i := strings.Index(all[0], "synctest bubble "); i >= 0 {
+		rest := all[0][i:]
+		if j := strings.IndexAny(rest, "]\n"); j >= 0 {
+			bubble = rest[:j]
+		}
+	}
+	if bubble == "" {
+		return string(buf[:n])
+	}
+	var out []string
+	for _, g := range all {
+		first := g
+		if i := strings.IndexByte(g, '\n'); i >= 0 {
+			first = g[:i]
+		}
+		if strings.Contains(first, bubble+"]") {
+			out = append(out, g)
+		}
+	}
+	return strings.Join(out, "\n\n")
 }
 
 // Tasks runs named tasks under the scheduler and waits for all to finish.
